@@ -284,8 +284,12 @@ def Re.render : Re → Str
 /-- `brush_parser::pattern::pattern_to_regex_str` -/
 def patternToRegexStr (ext : Bool) (s : Str) : Str := (toRe (parsePat ext s)).render
 
-/-- `escape_literal_regex_piece` / the `Literal` arm of `to_regex_str`: how a quoted segment enters the pattern text -/
-def escapeLiteral (s : Str) : Str := s.flatMap fun c => if isSpecial c then ['\\', c] else [c]
+/-- the characters `pattern_text` (patterns.rs) quotes in a literal piece: the regex-special ones and
+the others that mean something to the pattern grammar -/
+def needsQuoting (c : Char) : Bool := isSpecial c || c = '!' || c = '-' || c = '@' || c = ':'
+
+/-- the `Literal` arm of `pattern_text`: how a quoted segment enters the pattern text -/
+def escapeLiteral (s : Str) : Str := s.flatMap fun c => if needsQuoting c then ['\\', c] else [c]
 
 /-! ## `pattern_has_glob_metacharacters` -/
 
@@ -492,12 +496,12 @@ def PatPiece.raw : PatPiece → Str
   | .lit s => s
   | .pat s => s
 
-/-- the `current_pattern.push…` loop of `to_regex_str`: unquoted pieces are appended as they are,
-quoted ones with a backslash in front of every `regex_char_is_special` character -/
+/-- the loop of `pattern_text` (used by `to_regex_str` and by `Pattern::expand`): unquoted pieces are
+appended as they are, quoted ones with a backslash in front of every `needsQuoting` character -/
 def piecesTextGo (acc : Str) : List PatPiece → Str
   | [] => acc
   | .pat s :: ps => piecesTextGo (acc ++ s) ps
-  | .lit s :: ps => piecesTextGo (s.foldl (fun a c => if isSpecial c then a ++ ['\\', c] else a ++ [c]) acc) ps
+  | .lit s :: ps => piecesTextGo (s.foldl (fun a c => if needsQuoting c then a ++ ['\\', c] else a ++ [c]) acc) ps
 
 def piecesText (ps : List PatPiece) : Str := piecesTextGo [] ps
 
@@ -512,24 +516,17 @@ def PatPiece.text : PatPiece → Str
 
 def joinPieces (ps : List PatPiece) : Str := ps.flatMap PatPiece.text
 
-/-- `requires_expansion` of one piece, as `Pattern::expand` asks it -/
+/-- `requires_expansion` asked of one piece on its own — what `Pattern::expand` used to do, and what
+no consumer may do (see `piecewise_glob_test_is_unsound`) -/
 def PatPiece.requiresExpansion (ext : Bool) : PatPiece → Bool
   | .pat s => hasGlob ext s
   | .lit _ => false
 
-/-- `split_fields` (expansion.rs) glues adjacent unquoted pieces of a field together before pathname
-expansion sees them: `[$set]` arrives there as the single piece `[abc]` -/
-def mergeAdjacent : List PatPiece → List PatPiece
-  | .pat a :: .pat b :: ps => mergeAdjacent (.pat (a ++ b) :: ps)
-  | p :: ps => p :: mergeAdjacent ps
-  | [] => []
-termination_by l => l.length
-
-/-- `Pattern::expand` for a one-component pattern in one directory: `none` = the early exit
-"no piece requires expansion" (the word is kept as it is); the dot-file rule looks at the raw text
-of the first piece -/
+/-- `Pattern::expand` for a one-component pattern in one directory: `none` = the early exit "the
+pattern does not require expansion" (the word is kept as it is), decided on the joined,
+quote-escaped text; the dot-file rule looks at the raw text of the first piece -/
 def expandPieces (ext nc dotglob : Bool) (ps : List PatPiece) (names : List Str) : Option (List Str) :=
-  if !(ps.any (PatPiece.requiresExpansion ext)) then none
+  if !hasGlob ext (piecesText ps) then none
   else
     let allowDot := dotglob || (match ps with | p :: _ => startsWithDot p.raw | [] => false)
     some (sortStrs (names.filter fun n => piecesMatch ext nc ps n && (!startsWithDot n || allowDot)))
